@@ -5,6 +5,7 @@ import InfOCFModel.Rank
 import InfOCFModel.Lexer
 import InfOCFModel.CRepModel
 import InfOCFModel.RemoveSup
+import InfOCFModel.CCert
 /-!
 Line-protocol driver: one request per line on stdin, one response per line on stdout.
 
@@ -289,6 +290,28 @@ def handle (line : String) : Except String (String × Bool) := do
       let ranks := " ".intercalate (Ω.map fun w => toString (κ w))
       pure (bit (isCRepB Ω D η) ++ "|" ++ String.join (Q.map fun q => bit (acceptCode Ω κ q)) ++ "|" ++
             bit (paretoMinB Ω D η) ++ "|" ++ ranks, true)
+    | "ctab" =>
+      -- families of the compiled c-inference system, as positions in D (the order is the one `cCertCheck` uses)
+      let n ← pnat
+      let D ← listOf pcond
+      let Q ← listOf pcond
+      let Ω := allWorlds n
+      let showSet := fun (s : List Cond) => if s.isEmpty then "-" else ",".intercalate (s.map fun c => toString (D.idxOf c))
+      let showFam := fun (X : List (List Cond)) => ";".intercalate (X.map showSet)
+      let rows := (ctab Ω D).map fun r => showFam r.V ++ "#" ++ showFam r.F
+      let qs := Q.map fun q => showFam (famMin D (Ω.filter q.ver)) ++ "#" ++ showFam (famMin D (Ω.filter q.fal))
+      pure ("|".intercalate rows ++ "@" ++ "|".intercalate qs, true)
+    | "ccert" =>
+      -- check a pool of refutations for one query (theorem C05_cert_sound)
+      let n ← pnat
+      let D ← listOf pcond
+      let Q ← listOf pcond
+      let pool ← listOf (do
+        let bm ← listOf (listOf pnat)
+        let qm ← listOf pnat
+        pure (⟨bm, qm⟩ : CLeaf))
+      let Ω := allWorlds n
+      pure (String.join (Q.map fun q => bit (cCertCheck Ω D q pool)), true)
     | "csearch" =>
       let n ← pnat
       let B ← pnat
